@@ -199,7 +199,11 @@ class C17(Monitor):
 
         def bad(kind, detail):
             v.append(dict(kind=kind, idx=-1, cmd="a=%r b=%r" % (a, b), detail=detail, mechanism=None))
-        ra, rb = mk(a, "a"), mk(b, "b")
+        # half of the pairs share one id: that is exactly the situation of an update request (the replacement carries the id of the
+        # region it replaces), and identity of ids says nothing about geometry
+        same = bool(case.get("seed", 0) % 2)
+        ra, rb = mk(a, "a"), mk(b, "a" if same else "b")
+        stats["pairs_same_id" if same else "pairs_distinct_ids"] += 1
         sets = collections.defaultdict(set)
         if "small" in case:
             sets["exhaustive_indices"].add(case["small"])
